@@ -268,7 +268,7 @@ pub fn check(c: &Case) -> Verdict {
 fn run(ctx: &Ctx) {
     ctx.run_regress::<Case, _>(check);
     let seed = ctx.seed;
-    let n = ctx.tier.pick(6, 7);
+    let n = ctx.tier.pick(7, 8);
     let count = gen::exh_count(13, n);
     ctx.run_indexed("exh-bytes-slice", count, |i| Some(Case { input: B(gen::exh_bytes(gen::SIGMA1, i)), piece: None }), check);
     let nb = ctx.tier.pick(5, 6);
@@ -292,11 +292,11 @@ fn run(ctx: &Ctx) {
     let corpus = gen::corpus();
     ctx.run_indexed("corpus", corpus.len() as u64 * 4, |i| Some(Case { input: B(corpus[(i / 4) as usize].1.clone()), piece: [None, Some(0), Some(1), Some(7)][(i % 4) as usize] }), check);
     let strat = (gen::soup_strategy(16), prop::option::of(0u8..9)).prop_map(|(input, piece)| Case { input: B(input), piece });
-    ctx.run_proptest("soup", ctx.tier.pick(300_000, 5_000_000), strat, check);
+    ctx.run_proptest("soup", ctx.tier.pick(1_000_000, 8_000_000), strat, check);
     let small_corpus: Vec<&Vec<u8>> = corpus.iter().map(|c| &c.1).filter(|d| d.len() <= 4096).collect();
     ctx.run_indexed_mode(
         "mutated-corpus",
-        ctx.tier.pick(200_000u64, 3_000_000),
+        ctx.tier.pick(800_000u64, 6_000_000),
         false,
         |i| {
             let mut r = SplitMix64::derive(seed, "c08-mutate", i);
